@@ -6,6 +6,10 @@
 //	rewriter renamelocals   every local variable v (:=, var) becomes vLc
 //	rewriter swapifelse     if c {A} else {B}  ->  if !(c) {B} else {A}   (plain else blocks only)
 //	rewriter hoistcond      if c {…}           ->  cond7 := c; if cond7 {…}   (statements without init, c not an identifier)
+//	rewriter delegate       func (r T) M(a A) R {body}  ->  func (r T) M(a A) R { return r.MImpl(a) } + func (r T) MImpl(a A) R {body}
+//	rewriter rangeindex     for i, v := range xs {…}  ->  for i := 0; i < len(xs); i++ { v := xs[i]; … }   (slices the body does not assign)
+//	rewriter tailerr        if err != nil { return err }; return nil  ->  return err      (functions whose only result is the error)
+//	rewriter expanderr      return f(x)  ->  errX := f(x); if errX != nil { return errX }; return nil   (same functions)
 //	rewriter earlyelse      if c { return … }; rest…  ->  unchanged order, but with an explicit else around nothing (no-op guard)
 package main
 
@@ -55,6 +59,14 @@ func main() {
 				n = swapIfElse(f)
 			case "hoistcond":
 				n = hoistCond(pk, f)
+			case "delegate":
+				n = delegate(pk, f)
+			case "rangeindex":
+				n = rangeIndex(pk, f)
+			case "tailerr":
+				n = tailErr(pk, f, false)
+			case "expanderr":
+				n = tailErr(pk, f, true)
 			default:
 				fmt.Fprintln(os.Stderr, "unknown mode", mode)
 				os.Exit(2)
@@ -206,5 +218,283 @@ func hoistCond(pk *packages.Package, f *ast.File) int {
 		return true
 	})
 	_ = pk
+	return n
+}
+
+// delegate outlines every function body into a sibling <name>Impl and leaves a pure forwarder under the old name.
+func delegate(pk *packages.Package, f *ast.File) int {
+	n := 0
+	var add []ast.Decl
+	for _, d := range f.Decls {
+		fd, ok := d.(*ast.FuncDecl)
+		if !ok || fd.Body == nil || fd.Name.Name == "init" || fd.Name.Name == "main" || fd.Type.TypeParams != nil {
+			continue
+		}
+		okParams := true
+		var args []ast.Expr
+		variadic := false
+		for _, fld := range fd.Type.Params.List {
+			if len(fld.Names) == 0 {
+				okParams = false
+			}
+			for _, id := range fld.Names {
+				if id.Name == "_" {
+					okParams = false
+				}
+				args = append(args, ast.NewIdent(id.Name))
+			}
+			if _, ok := fld.Type.(*ast.Ellipsis); ok {
+				variadic = true
+			}
+		}
+		if !okParams {
+			continue
+		}
+		var fun ast.Expr
+		implName := fd.Name.Name + "Impl"
+		if fd.Recv != nil {
+			if len(fd.Recv.List) != 1 || len(fd.Recv.List[0].Names) != 1 || fd.Recv.List[0].Names[0].Name == "_" {
+				continue
+			}
+			// methods of generic types keep their shape
+			generic := false
+			ast.Inspect(fd.Recv.List[0].Type, func(x ast.Node) bool {
+				switch x.(type) {
+				case *ast.IndexExpr, *ast.IndexListExpr:
+					generic = true
+				}
+				return true
+			})
+			if generic {
+				continue
+			}
+			fun = &ast.SelectorExpr{X: ast.NewIdent(fd.Recv.List[0].Names[0].Name), Sel: ast.NewIdent(implName)}
+		} else {
+			if pk.Types.Scope().Lookup(implName) != nil {
+				continue
+			}
+			fun = ast.NewIdent(implName)
+		}
+		call := &ast.CallExpr{Fun: fun, Args: args}
+		if variadic {
+			call.Ellipsis = 1
+		}
+		impl := &ast.FuncDecl{Recv: fd.Recv, Name: ast.NewIdent(implName), Type: fd.Type, Body: fd.Body}
+		var st ast.Stmt = &ast.ExprStmt{X: call}
+		if fd.Type.Results != nil && len(fd.Type.Results.List) > 0 {
+			st = &ast.ReturnStmt{Results: []ast.Expr{call}}
+		}
+		fd.Body = &ast.BlockStmt{List: []ast.Stmt{st}}
+		fd.Doc = nil
+		add = append(add, impl)
+		n++
+	}
+	f.Decls = append(f.Decls, add...)
+	return n
+}
+
+// rangeIndex turns range loops over slices into index loops.
+func rangeIndex(pk *packages.Package, f *ast.File) int {
+	n := 0
+	exprStr := func(e ast.Expr) string {
+		var b bytes.Buffer
+		_ = format.Node(&b, pk.Fset, e)
+		return b.String()
+	}
+	pure := func(e ast.Expr) bool {
+		for {
+			switch x := e.(type) {
+			case *ast.Ident:
+				_, isVar := pk.TypesInfo.Uses[x].(*types.Var)
+				return isVar
+			case *ast.SelectorExpr:
+				if sel := pk.TypesInfo.Selections[x]; sel == nil || sel.Kind() != types.FieldVal {
+					return false
+				}
+				e = x.X
+			default:
+				return false
+			}
+		}
+	}
+	var rewrite func(st ast.Stmt) ast.Stmt
+	rewrite = func(st ast.Stmt) ast.Stmt {
+		rs, ok := st.(*ast.RangeStmt)
+		if !ok || (rs.Key != nil && rs.Tok != token.DEFINE) || !pure(rs.X) {
+			return st
+		}
+		tv, ok := pk.TypesInfo.Types[rs.X]
+		if !ok {
+			return st
+		}
+		if _, isSlice := tv.Type.Underlying().(*types.Slice); !isSlice {
+			return st
+		}
+		xs := exprStr(rs.X)
+		root := xs
+		if i := strings.Index(root, "."); i >= 0 {
+			root = root[:i]
+		}
+		keyName := ""
+		if id, ok := rs.Key.(*ast.Ident); ok && id.Name != "_" {
+			keyName = id.Name
+		}
+		bad := false
+		ast.Inspect(rs.Body, func(x ast.Node) bool {
+			switch y := x.(type) {
+			case *ast.AssignStmt:
+				for _, l := range y.Lhs {
+					ls := exprStr(l)
+					if ls == xs || ls == root || ls == keyName || strings.HasPrefix(xs, ls+".") {
+						bad = true
+					}
+				}
+			case *ast.IncDecStmt:
+				if exprStr(y.X) == keyName {
+					bad = true
+				}
+			case *ast.UnaryExpr:
+				if y.Op == token.AND && (exprStr(y.X) == keyName || exprStr(y.X) == xs) {
+					bad = true
+				}
+			case *ast.FuncLit:
+				bad = true // captured loop variables: leave alone
+			}
+			return true
+		})
+		if bad {
+			return st
+		}
+		n++
+		idx := keyName
+		if idx == "" {
+			idx = fmt.Sprintf("ri%d", n)
+		}
+		body := rs.Body
+		if id, ok := rs.Value.(*ast.Ident); ok && id.Name != "_" {
+			decl := &ast.AssignStmt{Lhs: []ast.Expr{ast.NewIdent(id.Name)}, Tok: token.DEFINE, Rhs: []ast.Expr{&ast.IndexExpr{X: rs.X, Index: ast.NewIdent(idx)}}}
+			body = &ast.BlockStmt{List: append([]ast.Stmt{decl}, rs.Body.List...)}
+		} else if rs.Value != nil {
+			if _, isId := rs.Value.(*ast.Ident); !isId {
+				n--
+				return st
+			}
+		}
+		return &ast.ForStmt{
+			Init: &ast.AssignStmt{Lhs: []ast.Expr{ast.NewIdent(idx)}, Tok: token.DEFINE, Rhs: []ast.Expr{&ast.BasicLit{Kind: token.INT, Value: "0"}}},
+			Cond: &ast.BinaryExpr{X: ast.NewIdent(idx), Op: token.LSS, Y: &ast.CallExpr{Fun: ast.NewIdent("len"), Args: []ast.Expr{rs.X}}},
+			Post: &ast.IncDecStmt{X: ast.NewIdent(idx), Tok: token.INC},
+			Body: body,
+		}
+	}
+	rewriteList := func(list []ast.Stmt) {
+		for i, st := range list {
+			if ls, ok := st.(*ast.LabeledStmt); ok {
+				_ = ls // labelled loops stay: break/continue targets
+				continue
+			}
+			list[i] = rewrite(st)
+		}
+	}
+	ast.Inspect(f, func(nd ast.Node) bool {
+		switch x := nd.(type) {
+		case *ast.BlockStmt:
+			rewriteList(x.List)
+		case *ast.CaseClause:
+			rewriteList(x.Body)
+		case *ast.CommClause:
+			rewriteList(x.Body)
+		}
+		return true
+	})
+	return n
+}
+
+// tailErr rewrites the tail of functions with a single error result between `return err` and the spelled-out test.
+func tailErr(pk *packages.Package, f *ast.File, expand bool) int {
+	n := 0
+	isErrFunc := func(ft *ast.FuncType) bool {
+		if ft.Results == nil || len(ft.Results.List) != 1 || len(ft.Results.List[0].Names) > 1 {
+			return false
+		}
+		id, ok := ft.Results.List[0].Type.(*ast.Ident)
+		return ok && id.Name == "error"
+	}
+	isNil := func(e ast.Expr) bool {
+		id, ok := e.(*ast.Ident)
+		return ok && id.Name == "nil"
+	}
+	var doBody func(body *ast.BlockStmt)
+	doBody = func(body *ast.BlockStmt) {
+		l := body.List
+		if expand {
+			if len(l) == 0 {
+				return
+			}
+			ret, ok := l[len(l)-1].(*ast.ReturnStmt)
+			if !ok || len(ret.Results) != 1 {
+				return
+			}
+			call, ok := ret.Results[0].(*ast.CallExpr)
+			if !ok {
+				return
+			}
+			if tv, ok := pk.TypesInfo.Types[call]; !ok || tv.Type.String() != "error" {
+				return
+			}
+			n++
+			name := fmt.Sprintf("errT%d", n)
+			body.List = append(l[:len(l)-1:len(l)-1],
+				&ast.AssignStmt{Lhs: []ast.Expr{ast.NewIdent(name)}, Tok: token.DEFINE, Rhs: []ast.Expr{call}},
+				&ast.IfStmt{Cond: &ast.BinaryExpr{X: ast.NewIdent(name), Op: token.NEQ, Y: ast.NewIdent("nil")}, Body: &ast.BlockStmt{List: []ast.Stmt{&ast.ReturnStmt{Results: []ast.Expr{ast.NewIdent(name)}}}}},
+				&ast.ReturnStmt{Results: []ast.Expr{ast.NewIdent("nil")}})
+			return
+		}
+		if len(l) < 2 {
+			return
+		}
+		ret, ok := l[len(l)-1].(*ast.ReturnStmt)
+		if !ok || len(ret.Results) != 1 || !isNil(ret.Results[0]) {
+			return
+		}
+		is, ok := l[len(l)-2].(*ast.IfStmt)
+		if !ok || is.Init != nil || is.Else != nil || len(is.Body.List) != 1 {
+			return
+		}
+		be, ok := is.Cond.(*ast.BinaryExpr)
+		if !ok || be.Op != token.NEQ || !isNil(be.Y) {
+			return
+		}
+		eid, ok := be.X.(*ast.Ident)
+		if !ok {
+			return
+		}
+		r2, ok := is.Body.List[0].(*ast.ReturnStmt)
+		if !ok || len(r2.Results) != 1 {
+			return
+		}
+		rid, ok := r2.Results[0].(*ast.Ident)
+		if !ok || rid.Name != eid.Name {
+			return
+		}
+		if tv, ok := pk.TypesInfo.Types[be.X]; !ok || tv.Type.String() != "error" {
+			return
+		}
+		n++
+		body.List = append(l[:len(l)-2:len(l)-2], &ast.ReturnStmt{Results: []ast.Expr{ast.NewIdent(eid.Name)}})
+	}
+	ast.Inspect(f, func(nd ast.Node) bool {
+		switch x := nd.(type) {
+		case *ast.FuncDecl:
+			if x.Body != nil && isErrFunc(x.Type) {
+				doBody(x.Body)
+			}
+		case *ast.FuncLit:
+			if isErrFunc(x.Type) {
+				doBody(x.Body)
+			}
+		}
+		return true
+	})
 	return n
 }
